@@ -142,6 +142,38 @@ pub fn c20_serde(c: &mut Ctx, a: W) {
     expect_de(c, "serde/de", "sequence [hi, lo]", &ins, a, guard(|| de_seq(vec![a.0, a.1])), valid);
     expect_de(c, "serde/de", "map {hi, lo}", &ins, a, guard(|| de_map(vec![("hi", a.0), ("lo", a.1)])), valid);
     expect_de(c, "serde/de", "map {lo, hi}", &ins, a, guard(|| de_map(vec![("lo", a.1), ("hi", a.0)])), valid);
+    // the in-place route must validate like the ordinary one
+    {
+        let mut place = TwoFloat::from(7.0);
+        let r = guard(|| {
+            let d = SeqDeserializer::<_, VErr>::new(vec![a.0, a.1].into_iter());
+            let res = <TwoFloat as Deserialize>::deserialize_in_place(d, &mut place).map_err(|e| e.to_string());
+            (res, place)
+        });
+        match r {
+            Err(m) => c.viol("serde/in_place", "panic", &ins, &[], m),
+            Ok((res, pl)) => {
+                if !valid_ref(pl.hi(), pl.lo()) {
+                    c.viol("serde/in_place", "accepted_invalid", &ins, &[hx(pl.hi()), hx(pl.lo())], "deserialize_in_place left an invalid TwoFloat in the target".into());
+                } else if res.is_ok() && !(valid && same_bits(&pl, a)) {
+                    c.viol("serde/in_place", "roundtrip", &ins, &[hx(pl.hi()), hx(pl.lo())], "deserialize_in_place succeeded but the target does not hold the presented valid words".into());
+                } else if res.is_err() && valid {
+                    c.viol("serde/in_place", "rejected_valid", &ins, &[], "deserialize_in_place rejected a valid pair".into());
+                }
+            }
+        }
+        let mut place2 = TwoFloat::from(7.0);
+        let r = guard(|| {
+            let d = MapDeserializer::<_, VErr>::new(vec![("lo", a.1), ("hi", a.0)].into_iter());
+            let res = <TwoFloat as Deserialize>::deserialize_in_place(d, &mut place2).map_err(|e| e.to_string());
+            (res, place2)
+        });
+        if let Ok((res, pl)) = r {
+            if !valid_ref(pl.hi(), pl.lo()) || (res.is_ok() && !(valid && same_bits(&pl, a))) {
+                c.viol("serde/in_place", "accepted_invalid", &ins, &[hx(pl.hi()), hx(pl.lo())], "deserialize_in_place (map form) produced an invalid or wrong value".into());
+            }
+        }
+    }
     // malformed field sets are rejected whatever the words are
     c.note("serde/malformed", &ins, true);
     expect_de(c, "serde/malformed", "missing lo", &ins, a, guard(|| de_map(vec![("hi", a.0)])), false);
